@@ -148,6 +148,16 @@ def sc_recovery(cancelable):
             "0 root z 7a 2 0 1", "0 child1 y 79 z", "0 scope y", "0 localEnter 6c", "0 close", "0 close", "0 drop y", "0 drop z", "0 cycle", "0 cycle", "0 stats"]
 
 
+def sc_recovery_adapter(cancelable, kind="inSpan"):
+    """overload episode (a finish signal stays parked on the thread), one cycle drains the queue, then a future / stream / sink
+    adapter runs on that thread: its span and what is recorded during its calls are submitted while the queue has room again
+    and must be delivered"""
+    call, res = {"inSpan": ("poll", "ready"), "stream": ("poll_next", "none"), "sink": ("poll_close", "ready")}[kind]
+    return ["0 spawn", "0 setReporter %d" % cancelable, "0 touch", "0 root q 71 1 0 1", "0 spam %d" % CAP, "0 drop q", "0 cycle",
+            "0 root r 72 2 0 1", "0 adNew f %s r" % kind, "0 adPoll f %s" % call, "0 localEnter 6c", "0 close", "0 adEnd f %s" % res,
+            "0 cycle", "0 cycle", "0 adDrop f", "0 stats"]
+
+
 def sc_cancel_split(k):
     """cancel() and the root's finish are parked on a full queue (in that order); a further plain submission fails
     while both are parked; after the queue has drained the parked signals are replayed by the next send, and a
@@ -263,7 +273,11 @@ def check_scenarios(impl_by_tag):
             later = sum(len(rs) for _, rs in tr.reports[1:])
             if len(first) != want or later:
                 f.append("%d of the %d spans of the trace were delivered in the cycle after the root finished, %d later" % (len(first), want, later))
-        if tag.startswith("recovery"):
+        if tag.startswith("recovery-adapter"):
+            if sorted(x for x in n if x in ("r", "l")) != ["l", "r"]:
+                f.append("the adapter ran after the queue had drained (only a finish signal was still parked): its span 'r' and the local span 'l' "
+                         "recorded during its call must be delivered: delivered %s" % n)
+        elif tag.startswith("recovery"):
             if sorted(x for x in n if x in ("z", "y", "l")) != ["l", "y", "z"]:
                 f.append("spans submitted after the queue had drained are missing: delivered %s" % n)
         if tag.startswith("start-on-full-default"):
